@@ -901,6 +901,11 @@ class Server:
         Server connection handler (main routine per user).
         """
         host, port, *_ = writer.transport.get_extra_info("peername", ("", ""))
+        if not self.server.is_serving():
+            # accepted just before `close()`: nobody would cancel this session
+            logger.info("server is closed, dropping connection from %s:%s", host, port)
+            writer.close()
+            return
         current_server_host, *_ = writer.transport.get_extra_info("sockname")
         logger.info("new connection from %s:%s", host, port)
         key = stream = ThrottleStreamIO(
